@@ -428,7 +428,14 @@ func checkC05(c *Ctx) {
 	}
 
 	// ---- C05.batch ----
-	rbt := c.Rule("C05.batch", "CreateInBatches: batch loop runs inside Transaction unless SkipDefaultTransaction or a single batch", 2)
+	checkBatchBracket(c, c.Rule("C05.batch", "CreateInBatches: batch loop runs inside Transaction unless SkipDefaultTransaction or a single batch", 2))
+}
+
+// checkBatchBracket: all batches of one CreateInBatches call share one transaction (shared with C13:
+// "everything the operation did is rolled back" when a hook of a later batch fails).
+func checkBatchBracket(c *Ctx, rbt *Rule) {
+	p := c.P
+	dbT := p.Named(pkgGorm, "DB")
 	cib := p.MethodDecl(pkgGorm, "DB", "CreateInBatches")
 	c.Touch(cib)
 	{
